@@ -23,10 +23,10 @@ def plan(tier):
     if tier == 'quick':
         return [
             # 2 sessions, 1 row, programs <= 2 over {R, W, Q(requery), QR(query filtering on an attribute), F(flush)};
-            # attribute b ordinary, excluded from optimistic checks (optimistic=False / float) or volatile; every
+            # attribute b nullable and NULL at first (criteria IS NULL), excluded from optimistic checks (optimistic=False / float) or volatile; every
             # other replay declares b in a subclass and queries through the base entity
             dict(name='c20-2s-1o-2ops-kinds', how='graph', limit=560,
-                 cfg=dict(NS=2, NO=1, MaxOps=2, KB=('opt', 'nonopt', 'volatile'), OpSet=SCALAR + ('QR',))),
+                 cfg=dict(NS=2, NO=1, MaxOps=2, KB=('null', 'nonopt', 'volatile'), OpSet=SCALAR + ('QR',))),
             # one db_session with two transactions: lock (by pk / by unique key), commit(), read, write, against a
             # concurrent writer - all programs of <= 4 such operations
             dict(name='c20-commit-in-the-middle', how='graph', limit=220,
@@ -34,12 +34,12 @@ def plan(tier):
                           LockModes=('wait', 'bykey'))),
             # two rows, 3 operations, deletes, locked objects, explicit commits: sampled behaviours
             dict(name='c20-2s-2o-3ops-sim', how='simulate', num=220, depth=14,
-                 cfg=dict(NS=2, NO=2, MaxOps=3, KB=('opt', 'nonopt'), OpSet=SCALAR + ('D', 'GFU', 'CM', 'QR'))),
+                 cfg=dict(NS=2, NO=2, MaxOps=3, KB=('opt', 'null', 'nonopt'), OpSet=SCALAR + ('D', 'GFU', 'CM', 'QR'))),
         ]
     return [
         # 3-operation programs over the full scalar alphabet, every attribute kind: exhaustive + several thousand replays
         dict(name='c20-2s-1o-3ops-kinds', how='graph', limit=4500,
-             cfg=dict(NS=2, NO=1, MaxOps=3, KB=('opt', 'nonopt', 'volatile'), OpSet=SCALAR)),
+             cfg=dict(NS=2, NO=1, MaxOps=3, KB=('opt', 'null', 'nonopt', 'volatile'), OpSet=SCALAR)),
         # queries that filter on an attribute (read bit through _set_rbits) and explicit commit(), exhaustive, replayed
         dict(name='c20-qr-commit', how='graph', limit=3000,
              cfg=dict(NS=2, NO=1, MaxOps=3, KB=('opt', 'nonopt'), OpSet=('R', 'W', 'QR', 'CM'))),
